@@ -1,7 +1,6 @@
 """Abstract connection module."""
 import asyncio
 import logging
-import sys
 import time
 from enum import Enum, IntEnum
 
@@ -219,11 +218,13 @@ class AsyncFIXConnection:
             await self._state_set(disconn_state)
             await self.on_disconnect()
 
-    async def send_msg(self, msg: FIXMessage):
+    async def send_msg(self, msg: FIXMessage, _journal: bool = True):
         """Sends message to the peer.
 
         Args:
             msg: fix message
+            _journal: (internal) False - for ResendRequest() retransmissions, which
+                      must not alter the journal of originally sent messages
 
         Raises:
             FIXConnectionError: raised if connection state does not allow sending
@@ -276,9 +277,10 @@ class AsyncFIXConnection:
 
         # Journal first: if process dies after write(), allocated MsgSeqNum must not be
         #   reused for another message after restart (peer will ResendRequest() it)
-        self._journaler.persist_msg(
-            encoded_msg, self._session, MessageDirection.OUTBOUND
-        )
+        if _journal:
+            self._journaler.persist_msg(
+                encoded_msg, self._session, MessageDirection.OUTBOUND
+            )
 
         self._socket_writer.write(encoded_msg)
         await self._socket_writer.drain()
@@ -598,30 +600,37 @@ class AsyncFIXConnection:
         Args:
             resend_msg: ResendRequest(35=2) FIXMessage
         """
+        assert resend_msg.msg_type == FMsg.RESENDREQUEST
+
+        # Retransmission never changes next_num_out / journal of sent messages
+        current_next_num_out = self._session.next_num_out
+
+        begin_seq_no = int(resend_msg[FTag.BeginSeqNo])
+        end_seq_no = int(resend_msg[FTag.EndSeqNo])
+        if end_seq_no == 0 or end_seq_no >= current_next_num_out:
+            # All messages sent so far
+            end_seq_no = current_next_num_out - 1
+        if begin_seq_no <= 0 or begin_seq_no > end_seq_no:
+            self.log.warning(
+                f"Invalid ResendRequest range ignored: {resend_msg},"
+                f" next_num_out={current_next_num_out}"
+            )
+            return
+
         if self._connection_state != ConnectionState.RESENDREQ_AWAITING:
             await self._state_set(ConnectionState.RESENDREQ_HANDLING)
 
-        assert resend_msg.msg_type == FMsg.RESENDREQUEST
         assert self._connection_state in {
             ConnectionState.RESENDREQ_HANDLING,
             ConnectionState.RESENDREQ_AWAITING,
         }
 
-        begin_seq_no = int(resend_msg[FTag.BeginSeqNo])
-        end_seq_no = int(resend_msg[FTag.EndSeqNo])
-        if end_seq_no == 0:
-            end_seq_no = sys.maxsize
         self.log.info("Received resent request from %s to %s", begin_seq_no, end_seq_no)
         journal_replay_msgs = self._journaler.recover_messages(
             self._session, MessageDirection.OUTBOUND, begin_seq_no, end_seq_no
         )
 
-        # Remember next_num_out
-        current_next_num_out = self._session.next_num_out
-
-        self._journaler.set_seq_num(self._session, next_num_out=begin_seq_no)
         gap_fill_begin = int(begin_seq_no)
-        gap_fill_end = int(begin_seq_no)
 
         noreply_msgs = {
             FMsg.LOGON,
@@ -632,56 +641,46 @@ class AsyncFIXConnection:
             FMsg.SEQUENCERESET,
         }
 
+        async def send_gap_fill(seq_begin: int, seq_end: int):
+            gap_fill_msg = FIXMessage(FMsg.SEQUENCERESET)
+            gap_fill_msg[FTag.GapFillFlag] = "Y"
+            gap_fill_msg[FTag.MsgSeqNum] = seq_begin
+            gap_fill_msg[FTag.NewSeqNo] = str(seq_end)
+            await self.send_msg(gap_fill_msg, _journal=False)
+
         for enc_msg in journal_replay_msgs:
             replay_msg, _, _ = self._codec.decode(enc_msg, silent=False)
             msg_seq_num = int(replay_msg[FTag.MsgSeqNum])
 
             is_sess_msg = replay_msg[FTag.MsgType] in noreply_msgs
             if is_sess_msg or not await self.should_replay(replay_msg):
-                gap_fill_end = msg_seq_num + 1
-            else:
-                if gap_fill_begin < gap_fill_end:
-                    # we need to send a gap fill message
-                    gap_fill_msg = FIXMessage(FMsg.SEQUENCERESET)
-                    gap_fill_msg[FTag.GapFillFlag] = "Y"
-                    gap_fill_msg[FTag.MsgSeqNum] = gap_fill_begin
-                    gap_fill_msg[FTag.NewSeqNo] = str(gap_fill_end)
-                    # breakpoint()
-                    await self.send_msg(gap_fill_msg)
+                # will be covered by gap fill
+                continue
 
-                # and then resent the replayMsg
-                replay_msg[FTag.PossDupFlag] = "Y"
+            if gap_fill_begin < msg_seq_num:
+                # we need to send a gap fill message
+                await send_gap_fill(gap_fill_begin, msg_seq_num)
+
+            # and then resent the replayMsg
+            replay_msg.set(FTag.PossDupFlag, "Y", replace=True)
+            if FTag.OrigSendingTime not in replay_msg:
                 replay_msg[FTag.OrigSendingTime] = replay_msg[FTag.SendingTime]
-                del replay_msg[FTag.MsgType]
-                del replay_msg[FTag.BeginString]
-                del replay_msg[FTag.BodyLength]
-                del replay_msg[FTag.SendingTime]
-                del replay_msg[FTag.SenderCompID]
-                del replay_msg[FTag.TargetCompID]
-                del replay_msg[FTag.CheckSum]
-                await self.send_msg(replay_msg)
+            del replay_msg[FTag.MsgType]
+            del replay_msg[FTag.BeginString]
+            del replay_msg[FTag.BodyLength]
+            del replay_msg[FTag.SendingTime]
+            del replay_msg[FTag.SenderCompID]
+            del replay_msg[FTag.TargetCompID]
+            del replay_msg[FTag.CheckSum]
+            await self.send_msg(replay_msg, _journal=False)
 
-                gap_fill_begin = msg_seq_num + 1
+            gap_fill_begin = msg_seq_num + 1
 
-        if gap_fill_end < gap_fill_begin:
-            self.log.warning(
-                "Journal MsgSeqNum not reflecting last"
-                f" next_num_out={current_next_num_out}, forcing reset."
-            )
+        # Remainder not available in some reason (or not replayable)
+        if gap_fill_begin <= end_seq_no:
+            await send_gap_fill(gap_fill_begin, end_seq_no + 1)
 
-        assert gap_fill_end <= current_next_num_out, "Unexpected end for gap"
-
-        # Remainder not available in some reason
-        if gap_fill_begin < current_next_num_out:
-            gap_fill_msg = FIXMessage(FMsg.SEQUENCERESET)
-            gap_fill_msg[FTag.GapFillFlag] = "Y"
-            gap_fill_msg[FTag.MsgSeqNum] = gap_fill_begin
-            gap_fill_msg[FTag.NewSeqNo] = current_next_num_out
-            await self.send_msg(gap_fill_msg)
-
-        self._journaler.set_seq_num(self._session, next_num_out=current_next_num_out)
-
-        if self._connection_state != ConnectionState.RESENDREQ_AWAITING:
+        if self._connection_state == ConnectionState.RESENDREQ_HANDLING:
             await self._state_set(ConnectionState.ACTIVE)
 
     async def _process_seqreset(self, seqreset_msg: FIXMessage) -> bool:
